@@ -143,6 +143,22 @@ Theorem C20_db_validate_iff :
   forall c st, db_validate (Some c) st = Accept <-> db_ok c st.
 Proof. exact db_validate_iff. Qed.
 
+(* with the file system as oracle: the verdict depends on it only at the prepared-database path, in particular
+   not on what exists at db.sqlite.file_path (nothing, an empty file, a directory, a database with headers) *)
+Theorem C20_db_validate_fs_iff :
+  forall c fs, db_validate_fs (Some c) fs = Accept <-> db_ok c (fs (prepared_path c)).
+Proof. exact db_validate_fs_iff. Qed.
+
+Theorem C20_db_validate_fs_local :
+  forall c fs1 fs2, fs1 (prepared_path c) = fs2 (prepared_path c) ->
+    db_validate_fs (Some c) fs1 = db_validate_fs (Some c) fs2.
+Proof. exact db_validate_fs_local. Qed.
+
+Theorem C20_db_validate_ignores_sqlite_path :
+  forall c fs st, sqlite_path c <> prepared_path c ->
+    db_validate_fs (Some c) (fs_override fs (sqlite_path c) st) = db_validate_fs (Some c) fs.
+Proof. exact db_validate_ignores_sqlite_path. Qed.
+
 (* every valid section is accepted, for every answer of os.Stat *)
 Theorem C20_db_validate_complete : forall c st, db_ok c st -> db_validate (Some c) st = Accept.
 Proof. exact db_validate_complete. Qed.
@@ -182,6 +198,9 @@ Print Assumptions C20_keys_distinct.
 Print Assumptions C20_env_names_distinct.
 Print Assumptions C20_db_validate_nil.
 Print Assumptions C20_db_validate_iff.
+Print Assumptions C20_db_validate_fs_iff.
+Print Assumptions C20_db_validate_fs_local.
+Print Assumptions C20_db_validate_ignores_sqlite_path.
 Print Assumptions C20_db_validate_complete.
 Print Assumptions C20_db_validate_order.
 Print Assumptions C20_db_okb_iff.
